@@ -56,9 +56,12 @@ abbrev DMat (K : Type) := Array (Array K)
 namespace Problem
 variable {K : Type} [Scalar K]
 
-/-- dense design matrix (duplicates in a sparse row overwrite, as `A_dot(k,*i) = *n` does) -/
+/-- dense design matrix: `A_dot.set_zero(); … A_dot(k,*i) += *n` — coefficients a sparse row stores with the same
+    column index ADD up (class `Adj`, `LocalNetwork::project_equations` since 52e994b, `Homogenization::run` since
+    6d0f7107, `Envelope::set`) -/
 def dense (p : Problem K) : DMat K :=
-  p.rows.map fun r => r.foldl (fun (acc : Array K) (c, v) => acc.setIfInBounds (c - 1) v) (Array.replicate p.n 0)
+  p.rows.map fun r => r.foldl (fun (acc : Array K) (c, v) => acc.setIfInBounds (c - 1) (acc.getD (c - 1) 0 + v))
+    (Array.replicate p.n 0)
 
 /-- dense symmetric covariance matrix -/
 def covDense (p : Problem K) : DMat K := Id.run do
